@@ -218,6 +218,7 @@ Definition check17 (c : pxcase) : list nat :=
       ++ (if spec_shutdown steps observed then [] else [6%nat])
   | CProxyRed _ _ _ _ _ => []
   | CProxyRace _ => []
+  | CProxyReply _ => []
   | CProxyE2E results =>
       if forallb (fun p => fst p =? snd p) results then [] else [7%nat]
   | CProxyFree pname buf icp names sent got drops clean =>
